@@ -829,11 +829,27 @@ impl Worker {
         }
 
         file = file.filter(|file| {
-            file.file_size_bytes + batch.remaining_bytes <= self.max_file_size_bytes
+            // A file that needs recovery gets a separator written to it before the batch
+            let recovery_bytes = if file.file_needs_recovery {
+                self.separator.len()
+            } else {
+                0
+            };
+
+            file.file_size_bytes + recovery_bytes + batch.remaining_bytes
+                <= self.max_file_size_bytes
                 && file.file_ts == file_ts
         });
 
         let mut file = if let Some(file) = file {
+            // If the file was just reopened then it's the newest file in the set
+            // No new file is created, but retention still needs to apply to the rest of the set
+            if file_set_is_read {
+                let keep_files = if self.max_files == 0 { 1 } else { self.max_files };
+
+                file_set.apply_retention(&self.fs, keep_files.saturating_add(1));
+            }
+
             file
         } else {
             // If the active file is being rolled then the file set hasn't been read yet
